@@ -142,22 +142,45 @@ def queries(rng, kind, d, keys, tier):
     return q
 
 
-def gen_cases(ctx):
+REQUESTED = {"quick": [0, 1, 2, 3, 10, 11, 13], "thorough": [0, 1, 2, 3, 5, 7, 10, 11, 13, 20, 31, 100]}
+
+
+def probe_effective(ctx, scratch):
+    """the decimate factors the writer stores for each requested value (normalisation is C16's subject):
+       requested -> (annotation factor, utc factor), f32 and u24 signals"""
+    eff = {}
+    keys = [(d, dt) for d in REQUESTED[ctx.tier] for dt in (F32, U24)]
+    scripts = ["wopen;src 1 e e e e e;sig 1 1 0 %d 1000 0 0 0 0 %d %d e e;wclose;ropen;sigs;rclose" % (dt, d, d) for d, dt in keys]
+    for (d, dt), out in zip(keys, vlib.run_c("plain", "prog", scripts, args=[scratch])):
+        try:
+            sig1 = [x for x in out.split(";") if x.startswith("sigs ")][0].split()[4].split(",")
+            eff[(d, dt)] = (int(sig1[9]), int(sig1[10]))
+        except Exception:
+            eff[(d, dt)] = (d, d)      # could not be read back: assume stored as requested
+    return eff
+
+
+def gen_cases(ctx, eff):
     rng = ctx.rng
     cases = []
-    ds = [2, 3, 4, 5, 10] if ctx.tier == "quick" else [2, 3, 4, 5, 6, 7, 10, 11, 100]
-    for d in ds:
-        for n in counts(d, ctx.tier):
-            for (pname, keys) in patterns(rng, d, n):
-                for kind in ("a", "u"):
+    for (dreq, dt), (adf, udf) in sorted(eff.items()):
+        for kind in ("a", "u"):
+            d = adf if kind == "a" else udf
+            if d < 2:
+                # fault classes of the unclamped writer: factor 1 (any count), 0 (no defaults taken)
+                for n in (1, 2, 3):
+                    cases.append(dict(kind=kind, d=d, dreq=dreq, keys=list(range(n)), q=[], pat="inc", dtype=dt, fault=True))
+                continue
+            if dt == U24 and dreq not in (0, 1, 10):
+                continue
+            for n in counts(d, ctx.tier):
+                for (pname, keys) in patterns(rng, d, n):
                     if n > 600 and rng.random() < 0.5:
                         continue
-                    cases.append(dict(kind=kind, d=d, keys=keys, q=queries(rng, kind, d, keys, ctx.tier), pat=pname, dtype=F32))
-    # fault classes: decimate factor 1 (any count), 0 (24-bit types take no defaults)
-    for kind in ("a", "u"):
-        for n in (1, 2, 3):
-            cases.append(dict(kind=kind, d=1, keys=list(range(n)), q=[], pat="inc", dtype=F32, fault=True))
-            cases.append(dict(kind=kind, d=0, keys=list(range(n)), q=[], pat="inc", dtype=U24, fault=True))
+                    cases.append(dict(kind=kind, d=d, dreq=dreq, keys=keys, q=queries(rng, kind, d, keys, ctx.tier), pat=pname, dtype=dt))
+    # The 15-level limit (factor 2 stored as such and 2^15 annotations: alloc(16) fails, the next annotation overruns the
+    # level-1 array) was confirmed by hand on the C before the factors were clamped to >= 10; it is not generated here
+    # (the extracted model is quadratic in the record count; see the module report).
     return cases
 
 
@@ -168,7 +191,7 @@ def model_line(c):
 def prog_script(c, path):
     sid = 1
     ops = ["wopen", "src 1 e e e e e",
-           "sig %d 1 0 %d 1000 0 0 0 0 %d %d e e" % (sid, c["dtype"], c["d"], c["d"])]
+           "sig %d 1 0 %d 1000 0 0 0 0 %d %d e e" % (sid, c["dtype"], c["dreq"], c["dreq"])]
     for k, key in enumerate(c["keys"]):
         if c["kind"] == "a":
             ops.append("anno %d %d %08x %d %d 1 e" % (sid, key, k, k % 4, k % 256))
@@ -184,11 +207,10 @@ def prog_script(c, path):
 def impl_line(c, out, path):
     """rebuild the model's result line from the implementation's output + the saved file"""
     if "FAULT" in out or "PROCFAIL" in out:
-        st_w = "fault"
-        for op in out.split(";"):
-            if op.startswith(("anno ", "utc ")) and op.split()[1] != "0":
-                st_w = "err"
-        return "st=%s/fault" % st_w if "FAULT" in out else "PROCFAIL " + out[-200:]
+        if "FAULT" not in out:
+            return "PROCFAIL " + out[-200:]
+        # the crash may be in a write or in jls_wr_close (the op's output is lost either way): only the final status is compared
+        return "st=?/fault"
     ops = out.split(";")
     wr = [o for o in ops if o.startswith(("anno ", "utc "))]
     st = "ok" if all(o.split()[1] == "0" for o in wr) else "err"
@@ -257,9 +279,11 @@ def oracle(c, line):
 
 
 def run_ts(ctx, variants=("plain", "asan")):
-    cases = gen_cases(ctx)
     scratch = os.path.join(ctx.tmp, "ts")
     os.makedirs(scratch, exist_ok=True)
+    eff = probe_effective(ctx, scratch)
+    ctx.extra["ts_effective_factors"] = {"%d/%s" % (k[0], "u24" if k[1] == U24 else "f32"): v for k, v in sorted(eff.items())}
+    cases = gen_cases(ctx, eff)
     mlines = [model_line(c) for c in cases]
     model = [flatten_model(x) for x in vlib.run_model("ts", mlines)]
     dist = {}
@@ -295,8 +319,8 @@ def run_ts(ctx, variants=("plain", "asan")):
                       "replay: echo '<prog script>' | build/%s/jlsrun prog /tmp ; echo '<model line>' | build/jlsmodel ts\n"
                       % (c["kind"], d, n, c["pat"], variant, mlines[i][:4000], script[:6000], impl[:3000], m[:3000], variant))
             if c.get("fault"):
-                agree = impl.split(" ")[0] == m.split(" ")[0]
-                sig = SIG_D1 if d == 1 else SIG_D0
+                agree = impl.split(" ")[0].split("/")[1] == m.split(" ")[0].split("/")[1]
+                sig = SIG_D1 if d == 1 else (SIG_D0 if d == 0 else SIG_LVL)
                 what = ("%s track with decimate factor %d, %d record(s): implementation %s (model %s): the write returns an error and/or the "
                         "heap is overrun; C11/C12 require the records back" % ("annotation" if c["kind"] == "a" else "UTC", d, n, impl.split(" ")[0], m.split(" ")[0]))
                 if not agree:
